@@ -323,7 +323,10 @@ func PrivateJWK(priv crypto.Signer) map[string]any {
 // JWK carries private (or symmetric) key material.
 func JWKToPublic(m map[string]any) (pub crypto.PublicKey, private bool, err error) {
 	str := func(k string) string { s, _ := m[k].(string); return s }
-	dec := func(k string) []byte { b, _ := base64.RawURLEncoding.DecodeString(strings.TrimRight(str(k), "=")); return b }
+	dec := func(k string) []byte {
+		b, _ := base64.RawURLEncoding.DecodeString(strings.TrimRight(str(k), "="))
+		return b
+	}
 	for _, k := range []string{"d", "p", "q", "dp", "dq", "qi", "k", "oth"} {
 		if _, ok := m[k]; ok {
 			private = true
@@ -499,9 +502,9 @@ type JOSEInput struct {
 	Rogue          JOSEKey // attacker key that nothing resolves
 	// NearMiss are further resolvable parties whose DID (and hence kid) is a near-miss of the signer's (see NearMissDIDs),
 	// each with its own key; Name = the kind of near-miss
-	NearMiss []JOSEKey
-	FlipStride     int     // payload-segment flip stride (header and signature segments are always flipped at every position); <=1: every position
-	FlipAllBits    bool    // flip each of the six bits of every flipped character (default: the lowest bit; all six only in the last two characters)
+	NearMiss    []JOSEKey
+	FlipStride  int  // payload-segment flip stride (header and signature segments are always flipped at every position); <=1: every position
+	FlipAllBits bool // flip each of the six bits of every flipped character (default: the lowest bit; all six only in the last two characters)
 	// KeepHeader lists protected-header members the re-signing variants must not drop (default: all are kept).
 	NoJSON bool // consumer input cannot carry JSON serialisations at all (skips nothing, only a hint)
 }
